@@ -59,8 +59,11 @@ def dims_of_quantity(db, q):
 def mag_of(um, q, value):
     """Base-unit magnitude of `value` expressed in quantity q (scale-only composing units)."""
     mag = value
-    for unit, exp in q.GetComposingUnitsJoiningExponents():
-        mag = mag * um.slope[unit] ** exp
+    try:
+        for unit, exp in q.GetComposingUnitsJoiningExponents():
+            mag = mag * um.slope[unit] ** exp
+    except (OverflowError, ZeroDivisionError):
+        return float("inf")
     return mag
 
 
